@@ -167,8 +167,26 @@ static int run(const char *name, int groups, int len, int span) {
   if (flagged || violated) printf("%s: %d constraint(s) flagged unsatisfiable and %d violated in a feasible system (%zu variables, %zu constraints)\n", name, flagged, violated, vs.size(), cs.size());
   return flagged + violated;
 }
+// two inequalities on the same ordered pair; the tighter one is added to the LIVE solver after the looser one has become the active tree
+// edge: feasible, so nothing may be flagged and both must hold
+static int parallel(double g1, double g2, double da, double db) {
+  Variables vs; Constraints cs; vs.push_back(new Variable(0, da)); vs.push_back(new Variable(1, db));
+  cs.push_back(new Constraint(vs[0], vs[1], g1));
+  int bad = 0;
+  try {
+    IncSolver solver(vs, cs); solver.solve();
+    Constraint *c2 = new Constraint(vs[0], vs[1], g2); cs.push_back(c2);
+    solver.addConstraint(c2); solver.solve();
+    for (size_t k = 0; k < cs.size(); ++k)
+      if (cs[k]->unsatisfiable || cs[k]->right->finalPosition - cs[k]->gap - cs[k]->left->finalPosition < -1e-6) {
+        printf("parallel constraints a+%g<=b then a+%g<=b added to the live solver (desired %g, %g): constraint %zu %s; a=%g b=%g\n", g1, g2, da, db, k,
+               cs[k]->unsatisfiable ? "flagged unsatisfiable" : "violated", vs[0]->finalPosition, vs[1]->finalPosition); bad++; }
+  } catch (...) { printf("parallel constraints: exception in a feasible system\n"); bad++; }
+  return bad;
+}
 int main() {
   int bad = 0;
+  bad += parallel(1, 3, 0, 0); bad += parallel(1, 3, 5, 0); bad += parallel(2, 7, 0, 1); bad += parallel(0, 1, 3, 3);
   bad += run("one chain of 20", 1, 20, 4);
   bad += run("one group of 100", 1, 100, 10);
   bad += run("fifty groups of 100", 50, 100, 10);
@@ -405,6 +423,36 @@ def _jobs(tier, fl):
                   defines=["JOB_flag_on_evidence"], slices=[S["incsatisfy"], mb],
                   domain="every solver/constraint state, every outcome of the callees (cycle found or not, split result null or not, exception or not)",
                   expect=[r'h_merge_body\.assertion'], replay=replay_flag))
+    # ---- Block::findMinLMBetween / split_path: a DIRECT active inequality between the two variables is found as the split point, so no
+    #      "no split point" exception (which IncSolver::satisfy turns into an unsatisfiable flag) can arise for it  [completeness fragment]
+    BK = "libavoid/vpsc.cpp" if AV else "libvpsc/block.cpp"
+    fm = slice_func(BK, r'^Constraint \*Block::findMinLMBetween\(Variable\* const lv, Variable\* const rv\)', "Block::findMinLMBetween")
+    sp = slice_func(BK, r'^bool Block::split_path\(', "Block::split_path")
+    cfl = slice_func(BK, r'^inline bool Block::canFollowLeft\(Constraint const\* c, Variable const\* last\) const', "Block::canFollowLeft")
+    cfr = slice_func(BK, r'^inline bool Block::canFollowRight\(Constraint const\* c, Variable const\* last\) const', "Block::canFollowRight")
+    sp_hdr, sp_body = body_of(sp.text)
+    if not re.search(r'split_path\(\s*Variable\* r,\s*Variable\* const v,\s*Variable\* const u,\s*Constraint\* &m,\s*bool desperation=false\s*\)\s*$', sp_hdr):
+        raise Undecided("C01: signature of Block::split_path changed")
+    sp_sl = Slice("Block::split_path [body]", sp.rel, sp_body, sp.line, kind="function-body")
+    sp_text = subst(sp_sl, [(r'\bsplit_path\(r,c->(left|right),v,m\)', r'verif_rec_split_path(r,c->\1,v,m)', 2)])
+    fm_text = subst(fm, [(r'throw e;', '{ verif_thrown = 1; return nullptr; }', 1)])
+    bx = ("\ttypedef Constraints::iterator Cit;\n\tConstraint* findMinLMBetween(Variable* const lv, Variable* const rv);\n"
+          "\tbool split_path(Variable* r, Variable* const v, Variable* const u, Constraint* &m, bool desperation=false);\n"
+          "\tbool verif_rec_split_path(Variable* r, Variable* const v, Variable* const u, Constraint* &m) { return w_rec_split_path((void *)this, (void *)r, (void *)v, (void *)u); }\n"
+          "\tbool canFollowLeft(Constraint const* c, Variable const* last) const;\n\tbool canFollowRight(Constraint const* c, Variable const* last) const;\n"
+          "\tvoid reset_active_lm(Variable* const v, Variable* const u) { w_recompute_lm((void *)this); }\n"
+          "\tdouble compute_dfdv(Variable* const v, Variable* const u) { w_recompute_lm((void *)this); return 0; }\n"
+          "\tbool getActivePathBetween(std::vector<Constraint*>& path, Variable const* u, Variable const* v, Variable const *w) const { return false; }   // diagnostic path of the exception: dropped\n")
+    fm_filled = fill(pre, SHIM_POSITION, SHIM_UPOSITION, SHIM_SLACK, block_extra=bx)
+    fm_cxx = (base + EXTERN + 'extern "C" { bool w_rec_split_path(void *b, void *r, void *v, void *u); void w_recompute_lm(void *b); }\n' + fm_filled + S["using"].text +
+              "\nnamespace vpsc {\n" + cfl.text + "\n" + cfr.text + "\n" + sp_hdr.replace("bool desperation=false", "bool desperation") + "{" + sp_text + "}\n" + fm_text + "\n}\n"
+              'extern "C" void *w_findMinLM(void *b, void *lv, void *rv) { return (void *)((vpsc::Block *)b)->findMinLMBetween((vpsc::Variable *)lv, (vpsc::Variable *)rv); }\n')
+    js.append(Job("findMinLM_direct_edge", "B", spec, "h_findMinLM", cxx=fm_cxx, defines=["JOB_findMinLM"], slices=[fm, sp, cfl, cfr], unwind=6,
+                  flags=["--sat-solver", "cadical"], backend="sat:cadical", timeout=900, replay=replay_flag,
+                  bound="lv with at most 2 in- and 3 out-constraints over 4 variables (loops unwound 6 times with unwinding assertions); dfcc with loop contracts ran out of memory on this function",
+                  domain="every block state over 4 variables in which one out-constraint of lv is an active inequality to rv and the active constraints form a tree "
+                         "(assumed: no second active connection lv-rv; the recursive search through any other constraint does not reach rv)",
+                  expect=[r'h_findMinLM\.assertion', r'unwind']))
     if AV:
         # the libavoid copy lives in namespace Avoid: generated wrappers/shims and loop-contract symbols are renamed accordingly
         import json as _json
@@ -443,6 +491,9 @@ TRUSTED = [
 ASSUMPTIONS = [
     "caller duty of IncSolver::addConstraint: the constraint is also appended to the vector the solver's cs reference aliases (both call sites in libcola/colafd.cpp push first)",
     "Solver construction establishes m == cs.size() and needsScaling iff some variable scale != 1: the first loop body is under contract (unbounded, one arbitrary variable: needsScaling accumulates scale != 1); the constructor as a whole is NOT -- cbmc's C++ front end rejects its reference-member initialisers ('bad reference initializer') and crashes (SIGSEGV in goto-check) on the second loop body's contract -- so m == cs.size(), c->needsScaling == needsScaling and the all-elements step remain assumptions",
+    "findMinLM_direct_edge (both solver copies) is a BOUNDED completeness fragment: when an active inequality joins lv and rv directly, Block::findMinLMBetween returns it and does not "
+    "raise the 'no split point' exception that IncSolver::satisfy turns into an unsatisfiable flag; assumed: the active constraints of a block form a tree (no second active "
+    "connection between the two variables, the recursive search through any other constraint does not reach rv); recomputation of the multipliers is a no-op here",
     "NOT decided (residue): completeness (a feasible system is never flagged/thrown on; cyclic ones are flagged), finiteness (a NaN slack passes the scan), "
     "tightness of active constraints after Block::merge, histories beyond single calls, termination of IncSolver::solve's cost loop",
 ]
